@@ -720,4 +720,29 @@ pub mod verif_hooks {
     pub fn utf8like_size(val: usize) -> usize {
         super::utf8like_bytesize(val)
     }
+
+    /// Leaves arbitrary bits (not byte aligned) in this thread's frame / header CRC scratch sinks.
+    pub fn poison_scratch(seed: u64) {
+        use crate::bitsink::BitSink;
+        let mut s = seed | 1;
+        let mut next = move || {
+            s ^= s << 13;
+            s ^= s >> 7;
+            s ^= s << 17;
+            s
+        };
+        let n = (next() % 3000) as usize;
+        let g: Vec<u8> = (0..n).map(|_| next() as u8).collect();
+        super::FRAME_CRC_BUFFER.with(|c| {
+            let mut b = c.borrow_mut();
+            let _ = b.0.write_bytes_aligned(&g);
+            let _ = b.0.write_lsbs(0x5u8, 3);
+            b.1 = g.clone();
+        });
+        super::HEADER_CRC_BUFFER.with(|c| {
+            let mut b = c.borrow_mut();
+            let _ = b.write_bytes_aligned(&g[0..n.min(40)]);
+            let _ = b.write_lsbs(0x2u8, 2);
+        });
+    }
 }
